@@ -6,6 +6,7 @@ import (
 	"context"
 	"fmt"
 	"go/ast"
+	"go/token"
 	"go/types"
 	"os"
 	"path/filepath"
@@ -268,6 +269,32 @@ func (eng *Engine) funcTypeContract(t types.Type) *Contract {
 		return eng.cs.Funcs[eng.pkgSuffix(n.Obj().Pkg().Path())+".type:"+n.Obj().Name()]
 	}
 	return nil
+}
+
+// funcFieldContract: the contract declared for calls through a function-typed struct field (key pkg.field:Type.name), when the
+// called value is a load of that field
+func (eng *Engine) funcFieldContract(v ssa.Value) *Contract {
+	u, ok := v.(*ssa.UnOp)
+	if !ok || u.Op != token.MUL {
+		return nil
+	}
+	fa, ok := u.X.(*ssa.FieldAddr)
+	if !ok {
+		return nil
+	}
+	pt, ok := fa.X.Type().Underlying().(*types.Pointer)
+	if !ok {
+		return nil
+	}
+	n, ok := pt.Elem().(*types.Named)
+	if !ok || n.Obj().Pkg() == nil {
+		return nil
+	}
+	st, ok := n.Underlying().(*types.Struct)
+	if !ok {
+		return nil
+	}
+	return eng.cs.Funcs[eng.pkgSuffix(n.Obj().Pkg().Path())+".field:"+n.Obj().Name()+"."+st.Field(fa.Field).Name()]
 }
 
 // findFunc resolves a contract key to an SSA function
